@@ -645,3 +645,70 @@ func Reaches(v interface{}, target interface{}) bool {
 	}
 	return false
 }
+
+// ModelOf returns the model container bound to a real handle (nil if unknown).
+func (w *World) ModelOf(r interface{}) interface{} {
+	for m, h := range w.real {
+		if h == r {
+			return m
+		}
+	}
+	return nil
+}
+
+// Adopt converts an observed real value into a model value: scalars as they are, known
+// handles to their model container, unknown containers to a fresh model container built
+// by reading the real one through the public API (recursively) and bound to it.
+func (w *World) Adopt(rv interface{}) interface{} {
+	switch x := rv.(type) {
+	case at.List:
+		if m := w.ModelOf(x); m != nil {
+			return m
+		}
+		m := NewL()
+		w.Bind(m, x)
+		for i := 0; i < x.Count(); i++ {
+			m.E = append(m.E, w.Adopt(x.Get(i)))
+		}
+		return m
+	case at.Object:
+		if m := w.ModelOf(x); m != nil {
+			return m
+		}
+		m := NewO()
+		w.Bind(m, x)
+		x.ForEach(func(k string, v interface{}) { m.M[k] = w.Adopt(v) })
+		return m
+	}
+	return rv
+}
+
+// DeepEqual is structural equality of model values (kind-strict, floats by ==).
+func DeepEqual(a, b interface{}) bool {
+	switch x := a.(type) {
+	case *L:
+		y, ok := b.(*L)
+		if !ok || len(x.E) != len(y.E) {
+			return false
+		}
+		for i := range x.E {
+			if !DeepEqual(x.E[i], y.E[i]) {
+				return false
+			}
+		}
+		return true
+	case *O:
+		y, ok := b.(*O)
+		if !ok || len(x.M) != len(y.M) {
+			return false
+		}
+		for k, v := range x.M {
+			o, in := y.M[k]
+			if !in || !DeepEqual(v, o) {
+				return false
+			}
+		}
+		return true
+	}
+	return Same(a, b)
+}
